@@ -154,7 +154,7 @@ class C05(common.Prop):
     corr_fn = 'corr_ok5'
     fail_fn = 'prop_fail5'
     shard = 100
-    quick_cases = 600
+    quick_cases = 800
     thorough_cases = 8000
     extended_cases = 3000
     fail_text = {1: 'shorthand and longhand are read as different graphs (no renumbering / not the identity numbering)',
